@@ -135,3 +135,25 @@ Theorem C01_int64_domain_needed :
    int64_domain Auto 4 0 w_auto_wrap = false).
 Proof. exact (conj fill_todeploy_wraps auto_count_wraps). Qed.
 Print Assumptions C01_int64_domain_needed.
+
+(* ... and the outcome class (plan / already filled / which refusal) does not depend
+   on the sorted permutation either *)
+Theorem C01_each_class_invariant : forall infos s1 s2 need limit,
+  Permutation infos s1 -> Permutation infos s2 ->
+  Sorted (ngt each_less) s1 -> Sorted (ngt each_less) s2 -> 0 <= limit ->
+  res_class_eqb (each_from s1 need (each_limit infos limit)) (each_from s2 need (each_limit infos limit)) = true.
+Proof. exact each_class_invariant. Qed.
+Print Assumptions C01_each_class_invariant.
+
+Theorem C01_fill_class_invariant : forall infos s1 s2 need limit,
+  valid_infos infos -> Permutation infos s1 -> Permutation infos s2 ->
+  Sorted (ngt fill_less) s1 -> Sorted (ngt fill_less) s2 -> 0 <= limit ->
+  res_class_eqb (fill_from s1 need (each_limit infos limit)) (fill_from s2 need (each_limit infos limit)) = true.
+Proof. exact fill_class_invariant. Qed.
+Print Assumptions C01_fill_class_invariant.
+
+Theorem C01_drained_class_invariant : forall infos s1 s2 need total,
+  valid_infos infos -> Permutation infos s1 -> Permutation infos s2 -> 0 < need ->
+  res_class_eqb (drained_from s1 need total) (drained_from s2 need total) = true.
+Proof. exact drained_class_invariant. Qed.
+Print Assumptions C01_drained_class_invariant.
